@@ -605,7 +605,6 @@ func (ilvEngine) Run(ci any, st *Stats) *Violation {
 		return Violf("harness", "%v", err)
 	}
 
-
 	var preTwins [][]ilvLoadResult
 	if c.PreTwin {
 		for i := 0; i < n; i++ {
